@@ -179,6 +179,9 @@ def parse_rvalue(s):
     if s.startswith("Len(") and s.endswith(")"):
         return ("len", parse_place(s[4:-1]))
     if s.startswith("&raw "):
+        m = re.fullmatch(r"&raw (const|mut) (?:\(fake\) )?(.*)", s)
+        if m:
+            return ("ref", "mut" if m.group(1) == "mut" else "shared", parse_place(m.group(2)))
         return ("raw", s)
     if s.startswith("&mut "):
         return ("ref", "mut", parse_place(s[5:]))
@@ -237,6 +240,8 @@ def parse_rvalue(s):
                 pass
     if re.fullmatch(r"[\w:<>,\s&'\[\];{}@./#-]+", s):
         return ("adt_unit", s)
+    if re.fullmatch(r"[\w:<>,\s&'\[\];{}@./#()-]+::\w+", s):
+        return ("adt_unit", s)      # unit variant of a type with tuple generics, e.g. Option::<(u64, u64)>::None
     return ("raw", s)
 
 
